@@ -194,6 +194,61 @@ theorem calls_bounded (d : Nat) : ∀ (calls : List (Nat × List Arrival)) (s : 
       rw [hr.2] at this
       exact this
 
+/-- **C18.late_reply**: a matching reply that comes to hand only at or after the deadline (because it
+arrived late, or because skipping the datagrams before it used the time up) is not delivered: the
+call ends with a timeout (sync and async), whatever follows it -/
+theorem late_reply (T d start : Nat) : ∀ (strays : List Arrival) (now : Nat) (r : Arrival) (rest : List Arrival),
+    (∀ a ∈ strays, a.kind = .stray) →
+    start + T ≤ max (clock d now strays) r.time →
+    (∃ t, syncRecv T d start now (strays ++ r :: rest) = .timeout t) ∧
+    (∃ t, asyncRecv T d start now (strays ++ r :: rest) = .timeout t) := by
+  intro strays
+  induction strays with
+  | nil =>
+    intro now r rest _ hlate
+    simp only [clock] at hlate
+    constructor
+    · simp only [List.nil_append, syncRecv]
+      rw [if_pos hlate]; exact ⟨_, rfl⟩
+    · simp only [List.nil_append, asyncRecv]
+      rw [if_pos hlate]; exact ⟨_, rfl⟩
+  | cons a more ih =>
+    intro now r rest hs hlate
+    have ha : a.kind = .stray := hs a (by simp)
+    have hm : ∀ x ∈ more, x.kind = .stray := fun x hx => hs x (by simp [hx])
+    simp only [clock] at hlate
+    have h := ih (max now a.time + d) r rest hm hlate
+    constructor
+    · simp only [List.cons_append, syncRecv, ha]
+      split
+      · exact ⟨_, rfl⟩
+      · split
+        · exact ⟨_, rfl⟩
+        · exact h.1
+    · simp only [List.cons_append, asyncRecv, ha]
+      split
+      · exact ⟨_, rfl⟩
+      · exact h.2
+
+example : syncRecv 10 1 0 0 [⟨3, .stray⟩, ⟨10, .reply⟩] = .timeout 10 := by decide
+example : asyncRecv 10 1 0 0 [⟨3, .stray⟩, ⟨12, .reply⟩, ⟨13, .reply⟩] = .timeout 10 := by decide
+
+/-- **C18.outcome_trichotomy**: with `sync_match` and `late_reply`: the outcome of a call whose traffic
+is a run of non-matching datagrams followed by the reply is decided by one comparison — delivered
+iff the reply is in hand strictly before the deadline -/
+theorem reply_iff (T d start : Nat) (strays : List Arrival) (now : Nat) (r : Arrival) (rest : List Arrival)
+    (hs : ∀ a ∈ strays, a.kind = .stray) (hr : r.kind = .reply) (hst : start ≤ now) :
+    (∃ t, syncRecv T d start now (strays ++ r :: rest) = .delivered t) ↔
+      max (clock d now strays) r.time < start + T := by
+  constructor
+  · intro ⟨t, ht⟩
+    by_cases h : max (clock d now strays) r.time < start + T
+    · exact h
+    · obtain ⟨⟨t', ht'⟩, _⟩ := late_reply T d start strays now r rest hs (by omega)
+      rw [ht'] at ht; cases ht
+  · intro h
+    exact ⟨_, sync_match T d start strays now r rest hs hr h hst⟩
+
 /-- `k` stray datagrams spaced `T - 1` apart, starting at `from` -/
 def drip (T : Nat) : Nat → Nat → List Arrival
   | _, 0 => []
